@@ -107,6 +107,7 @@ def _prog_decode(a):
     i = 0
     np, nsub, nuser, ij, rtl, flags, nj = a[0:7]; i = 7
     just = a[i:i + 4 * nj]; i += 4 * nj
+    nlb = a[i]; i += 1
     passes = []
     for _ in range(np):
         maxloop, nr = a[i], a[i + 1]; i += 2
@@ -120,12 +121,12 @@ def _prog_decode(a):
             act = a[i:i + al]; i += al
             rules.append([match, cons, act])
         passes.append([maxloop, rules])
-    return [nsub, nuser, ij, rtl, passes, flags, just]
+    return [nsub, nuser, ij, rtl, passes, flags, just, nlb]
 
 
 def _prog_encode(pr):
-    nsub, nuser, ij, rtl, passes, flags, just = pr
-    a = [len(passes), min(nsub, len(passes)), nuser, ij, rtl, flags, len(just) // 4] + list(just)
+    nsub, nuser, ij, rtl, passes, flags, just, nlb = pr
+    a = [len(passes), min(nsub, len(passes)), nuser, ij, rtl, flags, len(just) // 4] + list(just) + [min(nlb, nsub, len(passes))]
     for maxloop, rules in passes:
         a += [maxloop, len(rules)]
         for match, cons, act in rules:
@@ -173,6 +174,8 @@ def shrink_programs(plan, fails, t_end):
             pi = 0
             while pi < len(pr[4]) and time.time() < t_end:          # drop passes
                 npr = copy.deepcopy(pr); del npr[4][pi]
+                if pi < npr[7]:
+                    npr[7] -= 1
                 if pi < npr[0]:
                     npr[0] -= 1
                 if not attempt(npr):
